@@ -28,6 +28,31 @@ CHECKS = {
               "Inverse covariance is checked exactly on integer unimodular matrices only. Inputs with no finite observation are skipped."),
         technique="TLA+ spec (RVData/RVDataAlg) model-checked with TLC; replay of TLC-enumerated inputs; trace validation by total monitor",
     ),
+    "C08": dict(
+        category="model_checking",
+        text=("TLC exhausts MultiSurveyAlg (Concat;Sort;Label;Design as validate_prepare_data performs them) against the declarative "
+              "MultiSurvey clauses for <=4 epochs, <=3 surveys, times from a 3-point set (identical, interleaved and disjoint layouts), "
+              "list and dict input with every key order; every enumerated input (times in {1,2}) is passed to the real "
+              "validate_prepare_data and the returned (data, ids, trend_M) is validated by the MultiSurveyTrace monitor; seeded "
+              "random cases go to 4 surveys x 30 epochs. For dict input any bijection between offset columns and non-reference "
+              "surveys is accepted; for list input the first source must be the reference and the j-th further source owns dv0_j."),
+        design_ref="DESIGN.md section 3 C08",
+        note=("Trusted: TLC, astropy, value-encodes-identity projection. The likelihood-level consequence ('hence likelihoods are those "
+              "of the correctly labelled data') is covered through the design matrix handed to the kernel, which C01/C05 bind separately."),
+        technique="TLA+ spec (MultiSurvey/MultiSurveyAlg) model-checked with TLC; replay of TLC-enumerated inputs; trace validation by total monitor",
+    ),
+    "C19": dict(
+        category="model_checking",
+        text=("TLC checks the theorems of Diagnostics (largest arc independent of reference epoch and of time reversal, arcs sum to the "
+              "circle, coverage bounds) over every observing pattern on 12 slots x 4 periods x 3 reference epochs; every pattern on 8 "
+              "slots is replayed into the real max_phase_gap / phase_coverage / periods_spanned (observations fed shuffled, reversed "
+              "and sorted), results are projected to exact rationals and validated by the DiagnosticsTrace monitor, as are MAP_sample "
+              "calls on tables with ties and decoy maxima; seeded random patterns go to 300 slots."),
+        design_ref="DESIGN.md section 3 C19",
+        note=("Trusted: TLC, astropy; half-integer reference offsets keep every phase off bin edges, so only (P, n_bins) with an even "
+              "integer bin width 2P/n are used for phase_coverage. Non-integer periods are not on the lattice."),
+        technique="TLA+ spec (Diagnostics) theorems model-checked with TLC; replay of TLC-enumerated patterns; trace validation by total monitor",
+    ),
 }
 
 NOT_YET = "check not built yet (build in progress; see DESIGN.md section 7)"
